@@ -1274,23 +1274,23 @@ impl Server {
             "PING" => self.handle_ping(parts),
             "ECHO" => self.handle_echo(parts),
             "PUBLISH" => self.handle_publish(parts),
-            "SET" => self.handle_set(parts, db),
+            "SET" => Self::handle_set(&self.storage, parts, db),
             "GET" => self.handle_get(parts, db),
-            "INCR" => self.handle_incr(parts, db),
-            "DECR" => self.handle_decr(parts, db),
-            "INCRBY" => self.handle_incrby(parts, db),
-            "DECRBY" => self.handle_decrby(parts, db),
-            "DEL" => self.handle_del(parts, db),
+            "INCR" => Self::handle_incr(&self.storage, parts, db),
+            "DECR" => Self::handle_decr(&self.storage, parts, db),
+            "INCRBY" => Self::handle_incrby(&self.storage, parts, db),
+            "DECRBY" => Self::handle_decrby(&self.storage, parts, db),
+            "DEL" => Self::handle_del(&self.storage, parts, db),
             "EXISTS" => self.handle_exists(parts, db),
-            "EXPIRE" => self.handle_expire(parts, db),
-            "TTL" => self.handle_ttl(parts, db),
+            "EXPIRE" => Self::handle_expire(&self.storage, parts, db),
+            "TTL" => Self::handle_ttl(&self.storage, parts, db),
             "SELECT" => self.handle_select(parts, conn_id),
             "FLUSHDB" => self.handle_flushdb(parts, db),
             "FLUSHALL" => self.handle_flushall(parts),
             "DBSIZE" => self.handle_dbsize(parts, db),
-            "SETNX" => self.handle_setnx(parts, db),
-            "SETEX" => self.handle_setex(parts, db),
-            "PSETEX" => self.handle_psetex(parts, db),
+            "SETNX" => Self::handle_setnx(&self.storage, parts, db),
+            "SETEX" => Self::handle_setex(&self.storage, parts, db),
+            "PSETEX" => Self::handle_psetex(&self.storage, parts, db),
             // Special test commands
             "SLEEP" => {
                 // Special command that intentionally sleeps to test SLOWLOG
@@ -1373,7 +1373,7 @@ impl Server {
             "SETRANGE" => crate::storage::commands::strings::handle_setrange(&self.storage, db, parts),
             "TYPE" => crate::storage::commands::strings::handle_type(&self.storage, db, parts),
             "RENAME" => crate::storage::commands::strings::handle_rename(&self.storage, db, parts),
-            "RENAMENX" => self.handle_renamenx(parts, db),
+            "RENAMENX" => Self::handle_renamenx(&self.storage, parts, db),
             "RANDOMKEY" => self.handle_randomkey(parts, db),
             "BLPOP" => self.handle_blpop(parts, db, conn_id),
             "BRPOP" => self.handle_brpop(parts, db, conn_id),
@@ -1448,20 +1448,20 @@ impl Server {
             "HVALS" => crate::storage::commands::hashes::handle_hvals(&self.storage, db, parts),
             "HINCRBY" => crate::storage::commands::hashes::handle_hincrby(&self.storage, db, parts),
             // Sorted set commands
-            "ZADD" => self.handle_zadd(parts, db),
-            "ZREM" => self.handle_zrem(parts, db),
-            "ZSCORE" => self.handle_zscore(parts, db),
-            "ZCARD" => self.handle_zcard(parts, db),
-            "ZRANK" => self.handle_zrank(parts, db),
-            "ZREVRANK" => self.handle_zrevrank(parts, db),
-            "ZRANGE" => self.handle_zrange(parts, db),
-            "ZREVRANGE" => self.handle_zrevrange(parts, db),
-            "ZRANGEBYSCORE" => self.handle_zrangebyscore(parts, db),
-            "ZREVRANGEBYSCORE" => self.handle_zrevrangebyscore(parts, db),
-            "ZCOUNT" => self.handle_zcount(parts, db),
-            "ZINCRBY" => self.handle_zincrby(parts, db),
-            "ZPOPMIN" => self.handle_zpopmin(parts, db),
-            "ZPOPMAX" => self.handle_zpopmax(parts, db),
+            "ZADD" => Self::handle_zadd(&self.storage, parts, db),
+            "ZREM" => Self::handle_zrem(&self.storage, parts, db),
+            "ZSCORE" => Self::handle_zscore(&self.storage, parts, db),
+            "ZCARD" => Self::handle_zcard(&self.storage, parts, db),
+            "ZRANK" => Self::handle_zrank(&self.storage, parts, db),
+            "ZREVRANK" => Self::handle_zrevrank(&self.storage, parts, db),
+            "ZRANGE" => Self::handle_zrange(&self.storage, parts, db),
+            "ZREVRANGE" => Self::handle_zrevrange(&self.storage, parts, db),
+            "ZRANGEBYSCORE" => Self::handle_zrangebyscore(&self.storage, parts, db),
+            "ZREVRANGEBYSCORE" => Self::handle_zrevrangebyscore(&self.storage, parts, db),
+            "ZCOUNT" => Self::handle_zcount(&self.storage, parts, db),
+            "ZINCRBY" => Self::handle_zincrby(&self.storage, parts, db),
+            "ZPOPMIN" => Self::handle_zpopmin(&self.storage, parts, db),
+            "ZPOPMAX" => Self::handle_zpopmax(&self.storage, parts, db),
             
             // Stream commands
             "XADD" => crate::storage::commands::streams::handle_xadd(&self.storage, db, parts),
@@ -2011,7 +2011,7 @@ impl Server {
     }
     
     /// Handle ZADD command
-    fn handle_zadd(&self, parts: &[RespFrame], db: usize) -> Result<RespFrame> {
+    pub(crate) fn handle_zadd(storage: &Arc<StorageEngine>, parts: &[RespFrame], db: usize) -> Result<RespFrame> {
         // ZADD key score member [score member ...]
         if parts.len() < 4 || parts.len() % 2 != 0 {
             return Ok(RespFrame::error("ERR wrong number of arguments for 'zadd' command"));
@@ -2047,7 +2047,7 @@ impl Server {
         let mut new_members = 0;
         for (member, score) in pairs {
             // Add to sorted set 
-            if self.storage.zadd(db, key.clone(), member, score)? {
+            if storage.zadd(db, key.clone(), member, score)? {
                 new_members += 1;
             }
         }
@@ -2056,7 +2056,7 @@ impl Server {
     }
     
     /// Handle ZREM command
-    fn handle_zrem(&self, parts: &[RespFrame], db: usize) -> Result<RespFrame> {
+    pub(crate) fn handle_zrem(storage: &Arc<StorageEngine>, parts: &[RespFrame], db: usize) -> Result<RespFrame> {
         // ZREM key member [member ...]
         if parts.len() < 3 {
             return Ok(RespFrame::error("ERR wrong number of arguments for 'zrem' command"));
@@ -2078,7 +2078,7 @@ impl Server {
             };
             
             // Remove from sorted set
-            if self.storage.zrem(db, key, member)? {
+            if storage.zrem(db, key, member)? {
                 removed += 1;
             }
         }
@@ -2087,7 +2087,7 @@ impl Server {
     }
     
     /// Handle ZSCORE command
-    fn handle_zscore(&self, parts: &[RespFrame], db: usize) -> Result<RespFrame> {
+    pub(crate) fn handle_zscore(storage: &Arc<StorageEngine>, parts: &[RespFrame], db: usize) -> Result<RespFrame> {
         // ZSCORE key member
         if parts.len() != 3 {
             return Ok(RespFrame::error("ERR wrong number of arguments for 'zscore' command"));
@@ -2106,7 +2106,7 @@ impl Server {
         };
         
         // Get score
-        match self.storage.zscore(db, key, member)? {
+        match storage.zscore(db, key, member)? {
             Some(score) => {
                 // Convert f64 to string with Redis protocol formatting
                 let score_str = format!("{}", score);
@@ -2117,7 +2117,7 @@ impl Server {
     }
     
     /// Handle ZCARD command
-    fn handle_zcard(&self, parts: &[RespFrame], db: usize) -> Result<RespFrame> {
+    pub(crate) fn handle_zcard(storage: &Arc<StorageEngine>, parts: &[RespFrame], db: usize) -> Result<RespFrame> {
         // ZCARD key
         if parts.len() != 2 {
             return Ok(RespFrame::error("ERR wrong number of arguments for 'zcard' command"));
@@ -2130,13 +2130,13 @@ impl Server {
         };
         
         // Get cardinality
-        let count = self.storage.zcard(db, key)?;
+        let count = storage.zcard(db, key)?;
         
         Ok(RespFrame::Integer(count as i64))
     }
     
     /// Handle ZRANK command
-    fn handle_zrank(&self, parts: &[RespFrame], db: usize) -> Result<RespFrame> {
+    pub(crate) fn handle_zrank(storage: &Arc<StorageEngine>, parts: &[RespFrame], db: usize) -> Result<RespFrame> {
         // ZRANK key member
         if parts.len() != 3 {
             return Ok(RespFrame::error("ERR wrong number of arguments for 'zrank' command"));
@@ -2155,14 +2155,14 @@ impl Server {
         };
         
         // Get rank
-        match self.storage.zrank(db, key, member, false)? {
+        match storage.zrank(db, key, member, false)? {
             Some(rank) => Ok(RespFrame::Integer(rank as i64)),
             None => Ok(RespFrame::null_bulk()), // Member not found or key doesn't exist
         }
     }
     
     /// Handle ZREVRANK command
-    fn handle_zrevrank(&self, parts: &[RespFrame], db: usize) -> Result<RespFrame> {
+    pub(crate) fn handle_zrevrank(storage: &Arc<StorageEngine>, parts: &[RespFrame], db: usize) -> Result<RespFrame> {
         // ZREVRANK key member
         if parts.len() != 3 {
             return Ok(RespFrame::error("ERR wrong number of arguments for 'zrevrank' command"));
@@ -2181,14 +2181,14 @@ impl Server {
         };
         
         // Get rank (reversed)
-        match self.storage.zrank(db, key, member, true)? {
+        match storage.zrank(db, key, member, true)? {
             Some(rank) => Ok(RespFrame::Integer(rank as i64)),
             None => Ok(RespFrame::null_bulk()), // Member not found or key doesn't exist
         }
     }
     
     /// Handle ZRANGE command
-    fn handle_zrange(&self, parts: &[RespFrame], db: usize) -> Result<RespFrame> {
+    pub(crate) fn handle_zrange(storage: &Arc<StorageEngine>, parts: &[RespFrame], db: usize) -> Result<RespFrame> {
         // ZRANGE key start stop [WITHSCORES]
         if parts.len() < 4 || parts.len() > 5 {
             return Ok(RespFrame::error("ERR wrong number of arguments for 'zrange' command"));
@@ -2231,7 +2231,7 @@ impl Server {
         };
         
         // Get range
-        let members = self.storage.zrange(db, key, start, stop, false)?;
+        let members = storage.zrange(db, key, start, stop, false)?;
         
         // Format response
         if with_scores {
@@ -2252,7 +2252,7 @@ impl Server {
     }
     
     /// Handle ZREVRANGE command
-    fn handle_zrevrange(&self, parts: &[RespFrame], db: usize) -> Result<RespFrame> {
+    pub(crate) fn handle_zrevrange(storage: &Arc<StorageEngine>, parts: &[RespFrame], db: usize) -> Result<RespFrame> {
         // ZREVRANGE key start stop [WITHSCORES]
         if parts.len() < 4 || parts.len() > 5 {
             return Ok(RespFrame::error("ERR wrong number of arguments for 'zrevrange' command"));
@@ -2295,7 +2295,7 @@ impl Server {
         };
         
         // Get range in reverse order
-        let members = self.storage.zrange(db, key, start, stop, true)?;
+        let members = storage.zrange(db, key, start, stop, true)?;
         
         // Format response
         if with_scores {
@@ -2316,7 +2316,7 @@ impl Server {
     }
     
     /// Handle ZRANGEBYSCORE command
-    fn handle_zrangebyscore(&self, parts: &[RespFrame], db: usize) -> Result<RespFrame> {
+    pub(crate) fn handle_zrangebyscore(storage: &Arc<StorageEngine>, parts: &[RespFrame], db: usize) -> Result<RespFrame> {
         // ZRANGEBYSCORE key min max [WITHSCORES]
         if parts.len() < 4 || parts.len() > 5 {
             return Ok(RespFrame::error("ERR wrong number of arguments for 'zrangebyscore' command"));
@@ -2359,7 +2359,7 @@ impl Server {
         };
         
         // Get range by score
-        let members = self.storage.zrangebyscore(db, key, min_score, max_score, false)?;
+        let members = storage.zrangebyscore(db, key, min_score, max_score, false)?;
         
         // Format response
         if with_scores {
@@ -2380,7 +2380,7 @@ impl Server {
     }
     
     /// Handle ZREVRANGEBYSCORE command
-    fn handle_zrevrangebyscore(&self, parts: &[RespFrame], db: usize) -> Result<RespFrame> {
+    pub(crate) fn handle_zrevrangebyscore(storage: &Arc<StorageEngine>, parts: &[RespFrame], db: usize) -> Result<RespFrame> {
         // ZREVRANGEBYSCORE key max min [WITHSCORES]
         if parts.len() < 4 || parts.len() > 5 {
             return Ok(RespFrame::error("ERR wrong number of arguments for 'zrevrangebyscore' command"));
@@ -2423,7 +2423,7 @@ impl Server {
         };
         
         // Get range by score in reverse order
-        let members = self.storage.zrangebyscore(db, key, min_score, max_score, true)?;
+        let members = storage.zrangebyscore(db, key, min_score, max_score, true)?;
         
         // Format response
         if with_scores {
@@ -2444,7 +2444,7 @@ impl Server {
     }
     
     /// Handle ZCOUNT command
-    fn handle_zcount(&self, parts: &[RespFrame], db: usize) -> Result<RespFrame> {
+    pub(crate) fn handle_zcount(storage: &Arc<StorageEngine>, parts: &[RespFrame], db: usize) -> Result<RespFrame> {
         // ZCOUNT key min max
         if parts.len() != 4 {
             return Ok(RespFrame::error("ERR wrong number of arguments for 'zcount' command"));
@@ -2479,13 +2479,13 @@ impl Server {
         };
         
         // Get count
-        let count = self.storage.zcount(db, key, min_score, max_score)?;
+        let count = storage.zcount(db, key, min_score, max_score)?;
         
         Ok(RespFrame::Integer(count as i64))
     }
     
     /// Handle ZINCRBY command
-    fn handle_zincrby(&self, parts: &[RespFrame], db: usize) -> Result<RespFrame> {
+    pub(crate) fn handle_zincrby(storage: &Arc<StorageEngine>, parts: &[RespFrame], db: usize) -> Result<RespFrame> {
         // ZINCRBY key increment member
         if parts.len() != 4 {
             return Ok(RespFrame::error("ERR wrong number of arguments for 'zincrby' command"));
@@ -2515,14 +2515,14 @@ impl Server {
         };
         
         // Increment score
-        let new_score = self.storage.zincrby(db, key, member, increment)?;
+        let new_score = storage.zincrby(db, key, member, increment)?;
         
         // Return new score as bulk string (Redis protocol format)
         Ok(RespFrame::from_string(new_score.to_string()))
     }
     
     /// Handle ZPOPMIN command
-    fn handle_zpopmin(&self, parts: &[RespFrame], db: usize) -> Result<RespFrame> {
+    pub(crate) fn handle_zpopmin(storage: &Arc<StorageEngine>, parts: &[RespFrame], db: usize) -> Result<RespFrame> {
         if parts.len() < 2 || parts.len() > 3 {
             return Ok(RespFrame::error("ERR wrong number of arguments for 'zpopmin' command"));
         }
@@ -2549,14 +2549,14 @@ impl Server {
         };
         
         // A key of another type is an error whatever the count
-        self.storage.zcard(db, key)?;
+        storage.zcard(db, key)?;
         
         // Pop members with atomic operations
         let mut results = Vec::new();
         for _ in 0..count {
-            let members = self.storage.zrange(db, key, 0, 0, false)?;
+            let members = storage.zrange(db, key, 0, 0, false)?;
             if let Some((member, score)) = members.into_iter().next() {
-                if self.storage.zrem(db, key, &member)? {
+                if storage.zrem(db, key, &member)? {
                     results.push(RespFrame::from_bytes(member));
                     results.push(RespFrame::from_string(score.to_string()));
                 }
@@ -2573,7 +2573,7 @@ impl Server {
     }
     
     /// Handle ZPOPMAX command  
-    fn handle_zpopmax(&self, parts: &[RespFrame], db: usize) -> Result<RespFrame> {
+    pub(crate) fn handle_zpopmax(storage: &Arc<StorageEngine>, parts: &[RespFrame], db: usize) -> Result<RespFrame> {
         if parts.len() < 2 || parts.len() > 3 {
             return Ok(RespFrame::error("ERR wrong number of arguments for 'zpopmax' command"));
         }
@@ -2600,14 +2600,14 @@ impl Server {
         };
         
         // A key of another type is an error whatever the count
-        self.storage.zcard(db, key)?;
+        storage.zcard(db, key)?;
         
         // Pop members with atomic operations
         let mut results = Vec::new();
         for _ in 0..count {
-            let members = self.storage.zrange(db, key, -1, -1, false)?;
+            let members = storage.zrange(db, key, -1, -1, false)?;
             if let Some((member, score)) = members.into_iter().next() {
-                if self.storage.zrem(db, key, &member)? {
+                if storage.zrem(db, key, &member)? {
                     results.push(RespFrame::from_bytes(member));
                     results.push(RespFrame::from_string(score.to_string()));
                 }
@@ -2648,7 +2648,7 @@ impl Server {
     }
     
     /// Handle SET command
-    fn handle_set(&self, parts: &[RespFrame], db: usize) -> Result<RespFrame> {
+    pub(crate) fn handle_set(storage: &Arc<StorageEngine>, parts: &[RespFrame], db: usize) -> Result<RespFrame> {
         if parts.len() < 3 {
             return Ok(RespFrame::error("ERR wrong number of arguments for 'set' command"));
         }
@@ -2730,8 +2730,8 @@ impl Server {
         // Handle NX option (only set if key doesn't exist) - use atomic operation
         if nx {
             let result = match expiration {
-                Some(expires_in) => self.storage.set_string_nx_ex(db, key, value, expires_in)?,
-                None => self.storage.set_string_nx(db, key, value)?,
+                Some(expires_in) => storage.set_string_nx_ex(db, key, value, expires_in)?,
+                None => storage.set_string_nx(db, key, value)?,
             };
             
             if result {
@@ -2742,17 +2742,17 @@ impl Server {
         }
         // Handle XX option (only set if key exists)
         else if xx {
-            if !self.storage.exists(db, &key)? {
+            if !storage.exists(db, &key)? {
                 return Ok(RespFrame::null_bulk());
             }
             
             // Key exists, proceed with normal set
             match expiration {
                 Some(expires_in) => {
-                    self.storage.set_string_ex(db, key, value, expires_in)?;
+                    storage.set_string_ex(db, key, value, expires_in)?;
                 }
                 None => {
-                    self.storage.set_string(db, key, value)?;
+                    storage.set_string(db, key, value)?;
                 }
             }
             Ok(RespFrame::ok())
@@ -2761,10 +2761,10 @@ impl Server {
         else {
             match expiration {
                 Some(expires_in) => {
-                    self.storage.set_string_ex(db, key, value, expires_in)?;
+                    storage.set_string_ex(db, key, value, expires_in)?;
                 }
                 None => {
-                    self.storage.set_string(db, key, value)?;
+                    storage.set_string(db, key, value)?;
                 }
             }
             Ok(RespFrame::ok())
@@ -2806,7 +2806,7 @@ impl Server {
     }
     
     /// Handle INCR command
-    fn handle_incr(&self, parts: &[RespFrame], db: usize) -> Result<RespFrame> {
+    pub(crate) fn handle_incr(storage: &Arc<StorageEngine>, parts: &[RespFrame], db: usize) -> Result<RespFrame> {
         if parts.len() != 2 {
             return Ok(RespFrame::error("ERR wrong number of arguments for 'incr' command"));
         }
@@ -2822,14 +2822,14 @@ impl Server {
             _ => return Ok(RespFrame::error("ERR invalid key format")),
         };
         
-        match self.storage.incr(db, key) {
+        match storage.incr(db, key) {
             Ok(new_value) => Ok(RespFrame::Integer(new_value)),
             Err(e) => Ok(RespFrame::error(e.to_string())),
         }
     }
     
     /// Handle DECR command
-    fn handle_decr(&self, parts: &[RespFrame], db: usize) -> Result<RespFrame> {
+    pub(crate) fn handle_decr(storage: &Arc<StorageEngine>, parts: &[RespFrame], db: usize) -> Result<RespFrame> {
         if parts.len() != 2 {
             return Ok(RespFrame::error("ERR wrong number of arguments for 'decr' command"));
         }
@@ -2839,14 +2839,14 @@ impl Server {
             _ => return Ok(RespFrame::error("ERR invalid key format")),
         };
         
-        match self.storage.incr_by(db, key, -1) {
+        match storage.incr_by(db, key, -1) {
             Ok(new_value) => Ok(RespFrame::Integer(new_value)),
             Err(e) => Ok(RespFrame::error(e.to_string())),
         }
     }
     
     /// Handle INCRBY command
-    fn handle_incrby(&self, parts: &[RespFrame], db: usize) -> Result<RespFrame> {
+    pub(crate) fn handle_incrby(storage: &Arc<StorageEngine>, parts: &[RespFrame], db: usize) -> Result<RespFrame> {
         if parts.len() != 3 {
             return Ok(RespFrame::error("ERR wrong number of arguments for 'incrby' command"));
         }
@@ -2872,14 +2872,14 @@ impl Server {
             _ => return Ok(RespFrame::error("ERR invalid increment format")),
         };
         
-        match self.storage.incr_by(db, key, increment) {
+        match storage.incr_by(db, key, increment) {
             Ok(new_value) => Ok(RespFrame::Integer(new_value)),
             Err(e) => Ok(RespFrame::error(e.to_string())),
         }
     }
     
     /// Handle DEL command
-    fn handle_del(&self, parts: &[RespFrame], db: usize) -> Result<RespFrame> {
+    pub(crate) fn handle_del(storage: &Arc<StorageEngine>, parts: &[RespFrame], db: usize) -> Result<RespFrame> {
         if parts.len() < 2 {
             return Ok(RespFrame::error("ERR wrong number of arguments for 'del' command"));
         }
@@ -2892,7 +2892,7 @@ impl Server {
                 _ => continue, // Skip invalid keys
             };
             
-            if self.storage.delete(db, key)? {
+            if storage.delete(db, key)? {
                 deleted += 1;
             }
         }
@@ -2930,7 +2930,7 @@ impl Server {
     }
     
     /// Handle EXPIRE command
-    fn handle_expire(&self, parts: &[RespFrame], db: usize) -> Result<RespFrame> {
+    pub(crate) fn handle_expire(storage: &Arc<StorageEngine>, parts: &[RespFrame], db: usize) -> Result<RespFrame> {
         if parts.len() != 3 {
             return Ok(RespFrame::error("ERR wrong number of arguments for 'expire' command"));
         }
@@ -2952,20 +2952,20 @@ impl Server {
         
         // Handle negative expire values (Redis standard behavior: delete immediately)
         if seconds <= 0 {
-            let deleted = self.storage.delete(db, key)?;
+            let deleted = storage.delete(db, key)?;
             Ok(RespFrame::Integer(if deleted { 1 } else { 0 }))
         } else {
             // The deadline is kept on a 64-bit millisecond clock
             if seconds.checked_mul(1000).is_none() {
                 return Ok(RespFrame::error("ERR invalid expire time in 'expire' command"));
             }
-            let result = self.storage.expire(db, key, Duration::from_secs(seconds as u64))?;
+            let result = storage.expire(db, key, Duration::from_secs(seconds as u64))?;
             Ok(RespFrame::Integer(if result { 1 } else { 0 }))
         }
     }
     
     /// Handle TTL command
-    fn handle_ttl(&self, parts: &[RespFrame], db: usize) -> Result<RespFrame> {
+    pub(crate) fn handle_ttl(storage: &Arc<StorageEngine>, parts: &[RespFrame], db: usize) -> Result<RespFrame> {
         if parts.len() != 2 {
             return Ok(RespFrame::error("ERR wrong number of arguments for 'ttl' command"));
         }
@@ -2975,7 +2975,7 @@ impl Server {
             _ => return Ok(RespFrame::error("ERR invalid key format")),
         };
         
-        match self.storage.ttl(db, key)? {
+        match storage.ttl(db, key)? {
             Some(duration) => {
                 // Use ceiling calculation to match Redis behavior for TTL
                 let remaining_seconds: i64 = if duration.as_secs() == 0 && duration.subsec_millis() == 0 {
@@ -2996,7 +2996,7 @@ impl Server {
                 Ok(RespFrame::Integer(remaining_seconds))
             }
             None => {
-                if self.storage.exists(db, key)? {
+                if storage.exists(db, key)? {
                     Ok(RespFrame::Integer(-1)) // Key exists but no expiration
                 } else {
                     Ok(RespFrame::Integer(-2)) // Key doesn't exist
@@ -3074,7 +3074,7 @@ impl Server {
     }
     
     /// Handle SETNX command (set if not exists)
-    fn handle_setnx(&self, parts: &[RespFrame], db: usize) -> Result<RespFrame> {
+    pub(crate) fn handle_setnx(storage: &Arc<StorageEngine>, parts: &[RespFrame], db: usize) -> Result<RespFrame> {
         if parts.len() != 3 {
             return Ok(RespFrame::error("ERR wrong number of arguments for 'setnx' command"));
         }
@@ -3090,16 +3090,16 @@ impl Server {
         };
         
         // Check if key exists
-        if self.storage.exists(db, &key)? {
+        if storage.exists(db, &key)? {
             Ok(RespFrame::Integer(0)) // Key exists, not set
         } else {
-            self.storage.set_string(db, key, value)?;
+            storage.set_string(db, key, value)?;
             Ok(RespFrame::Integer(1)) // Key set
         }
     }
     
     /// Handle SETEX command (set with expiration in seconds)
-    fn handle_setex(&self, parts: &[RespFrame], db: usize) -> Result<RespFrame> {
+    pub(crate) fn handle_setex(storage: &Arc<StorageEngine>, parts: &[RespFrame], db: usize) -> Result<RespFrame> {
         if parts.len() != 4 {
             return Ok(RespFrame::error("ERR wrong number of arguments for 'setex' command"));
         }
@@ -3124,12 +3124,12 @@ impl Server {
             _ => return Ok(RespFrame::error("ERR invalid value format")),
         };
         
-        self.storage.set_string_ex(db, key, value, expires_in)?;
+        storage.set_string_ex(db, key, value, expires_in)?;
         Ok(RespFrame::ok())
     }
     
     /// Handle PSETEX command (set with expiration in milliseconds)
-    fn handle_psetex(&self, parts: &[RespFrame], db: usize) -> Result<RespFrame> {
+    pub(crate) fn handle_psetex(storage: &Arc<StorageEngine>, parts: &[RespFrame], db: usize) -> Result<RespFrame> {
         if parts.len() != 4 {
             return Ok(RespFrame::error("ERR wrong number of arguments for 'psetex' command"));
         }
@@ -3154,12 +3154,12 @@ impl Server {
             _ => return Ok(RespFrame::error("ERR invalid value format")),
         };
         
-        self.storage.set_string_ex(db, key, value, expires_in)?;
+        storage.set_string_ex(db, key, value, expires_in)?;
         Ok(RespFrame::ok())
     }
     
     /// Handle DECRBY command
-    fn handle_decrby(&self, parts: &[RespFrame], db: usize) -> Result<RespFrame> {
+    pub(crate) fn handle_decrby(storage: &Arc<StorageEngine>, parts: &[RespFrame], db: usize) -> Result<RespFrame> {
         if parts.len() != 3 {
             return Ok(RespFrame::error("ERR wrong number of arguments for 'decrby' command"));
         }
@@ -3185,14 +3185,14 @@ impl Server {
             None => return Ok(RespFrame::error("ERR decrement would overflow")),
         };
         
-        match self.storage.incr_by(db, key, increment) {
+        match storage.incr_by(db, key, increment) {
             Ok(new_value) => Ok(RespFrame::Integer(new_value)),
             Err(e) => Ok(RespFrame::error(e.to_string())),
         }
     }
     
     /// Handle RENAMENX command (rename only if new key doesn't exist)
-    fn handle_renamenx(&self, parts: &[RespFrame], db: usize) -> Result<RespFrame> {
+    pub(crate) fn handle_renamenx(storage: &Arc<StorageEngine>, parts: &[RespFrame], db: usize) -> Result<RespFrame> {
         if parts.len() != 3 {
             return Ok(RespFrame::error("ERR wrong number of arguments for 'renamenx' command"));
         }
@@ -3208,17 +3208,17 @@ impl Server {
         };
         
         // Check if old key exists
-        if !self.storage.exists(db, old_key)? {
+        if !storage.exists(db, old_key)? {
             return Ok(RespFrame::error("ERR no such key"));
         }
         
         // Check if new key already exists
-        if self.storage.exists(db, &new_key)? {
+        if storage.exists(db, &new_key)? {
             return Ok(RespFrame::Integer(0)); // New key exists, rename not performed
         }
         
         // Perform the rename
-        match self.storage.rename(db, old_key, new_key) {
+        match storage.rename(db, old_key, new_key) {
             Ok(_) => Ok(RespFrame::Integer(1)), // Rename successful
             Err(e) => Ok(RespFrame::error(e.to_string())),
         }
